@@ -25,6 +25,7 @@ Theorem C20_traversal_agrees :
   forall e root steps,
   abs_traversal_for_expr e = Some (root, steps) ->
   trav_shape_of e = Some ShPlain ->
+  keys_unmarked steps = true ->   (* index keys of a static traversal are unmarked literals *)
   forall (c : ctx) (anon : option val) (fuel : nat),
   (trav_depth e < fuel)%nat ->
   fst (eval fuel c anon e) = fst (traverse_abs c root steps) /\
@@ -37,6 +38,7 @@ Theorem C20_traversal_agrees_value :
   forall e root steps,
   abs_traversal_for_expr e = Some (root, steps) ->
   trav_shape_of e = Some ShPlain ->
+  keys_unmarked steps = true ->
   forall c : ctx,
   fst (value c e) = fst (traverse_abs c root steps) /\
   has_errors (snd (value c e)) = has_errors (snd (traverse_abs c root steps)).
